@@ -209,4 +209,8 @@ def servedTfdt (durs : List Nat) (stored : Option (Nat → Nat)) (modSeg origin 
    | some f => f (modSeg - 1)
    | none => prefixSum durs (modSeg - 1)) + origin
 
+/-- `moof.mfhd.sequence_number = seg_num & 0xFFFFFFFF` (media_requests.py, after the `fix:` 5803dd6: a
+32-bit field; Python's `&` on an int of any sign is the remainder modulo 2³²) -/
+def servedSeq (segNum : Int) : Int := segNum % 4294967296
+
 end DashLive.Segments
